@@ -171,8 +171,8 @@ def siteUpdates : List PanicSite := [
     ["ParolModel.Panic.site_renumber_states_panic", "ParolModel.minimizeC_total"],
     "`No free state number found!`: when the enumeration finds a key ≠ its position, the position itself is a free number below `productions.len()` (and ≥ 1, state 0 is present), and it is the one `find_first_free_state_number` returns; " ++ minNote⟩,
   ⟨"analysis/compiled_terminal.rs", "CompiledTerminal::create", "panic!", 1, "first/follow", .theorem,
-    ["ParolModel.Panic.site_compiled_terminal_create_panic"],
-    "`Unexpected symbol type`: in the refined model of `compile_production_equation` (`partsOf`/`equationOk`, symbols with the deprecated variants) every part whose first symbol is a terminal consists of terminals only, so `create` sees `Symbol::T` only; its other caller passes `Symbol::T` literally"⟩,
+    ["ParolModel.Panic.site_compiled_terminal_create_panic", "ParolModel.Panic.compile_production_equation_refines"],
+    "`Unexpected symbol type`: in the refined model of `compile_production_equation` (`partsOf`/`equationOk`, symbols with the deprecated variants) every part whose first symbol is a terminal consists of terminals only, so `create` sees `Symbol::T` only; the other caller (follow.rs `update_production_equations`) runs the same grouping fold (parts tagged with the symbol index) and maps `create` over a part only behind the same test of its first symbol. On the framework's symbols the refined fold computes the parts of `KS.compileParts` (`compile_production_equation_refines`)"⟩,
   ⟨"analysis/k_decision.rs", "FirstCache::get", "index", 3, "decision", .theorem,
     ["ParolModel.Panic.site_first_cache_get_index", "ParolModel.Panic.pre_established_decision"],
     "`self.0[k]` on MAX_K + 1 slots: in the guarded model (`firstCodeG` … `calculateKTuplesG`, slot test at every `get`) all requests of `calculate_k_tuples(max_k)` are for k ≤ max_k, so no index panic for max_k ≤ MAX_K — which `Builder::max_lookahead` establishes; the public `calculate_lookahead_dfas(cfg, 11)` does panic (finding F37, `f37_witness`)"⟩,
